@@ -335,3 +335,31 @@ def jobs(tier, seed):
             jobs.append({"harness": "option_routes", "params": {"cfg": base, "name": "routes", "lo": lo, "hi": hi}, "weight": 12, "cpu_cap": 1500, "wall_cap": 2400,
                          "path_cap": 90})
     return jobs
+
+
+def thorough_extra(seed):
+    jobs = []
+    spec = {n: dict(NOCR) for n in "abcdefgh"}
+    for rule, scs in CONSTRUCT.items():
+        if rule in ("table", "strikethrough"):
+            continue
+        cfg = dict(CM, disable=[rule])
+        for sc in scs:
+            sp_ = spec
+            if any(isinstance(p, str) and p.endswith("](x") for p in sc) or rule == "autolink":
+                from ..mdutil import urlish
+
+                sp_ = dict(spec, a=dict(NOCR, extra=urlish("a")))
+            jobs.append({"harness": "rule_off", "params": {"cfg": cfg, "rule": rule, "scaffold": sc, "spec": sp_, "name": f"off-{rule}-cm"}, "weight": 3})
+    for rule in ("table", "list", "heading", "emphasis", "link", "blockquote"):
+        _sharded(jobs, "rule_off", {"cfg": dict(JS, disable=[rule]), "rule": rule, "scaffold": free_doc(2, "\n"), "name": f"off-{rule}-free"}, weight=8, spec=spec)
+    _sharded(jobs, "extension", {"cfg": CM, "cfg_on": dict(CM, enable=["table"]), "ext": "table", "trigger": "|",
+                                 "scaffold": free_doc(3, "\n"), "name": "ext-table3"}, weight=30, spec=spec)
+    for sc in REF_SCAFFOLDS:
+        for base in (JS, CM):
+            jobs.append({"harness": "definitions", "params": {"cfg": base, "scaffold": sc, "spec": spec, "name": "defs-independent", "independent": True},
+                         "weight": 12, "path_cap": 90})
+    for j in jobs:
+        j["cpu_cap"] = 3000
+        j["wall_cap"] = 4000
+    return jobs
